@@ -503,6 +503,36 @@ class SRing(Sym):
         return f'SRing({self.t})'
 
 
+class SNum(SRing):
+    """A *number* (int/float coefficient of a polynomial), encoded as a real; unlike an abstract ring value it may be
+    compared and tested for zero (kingdon's polynomial code does both).  Floating-point rounding is not modelled."""
+    __slots__ = ()
+
+    def _b(self, o, f):
+        t = SRing._co(o)
+        return NotImplemented if t is None else SNum(f(self.t, t))
+
+    def __neg__(self):
+        return SNum(-self.t)
+
+    def __bool__(self):
+        return current().decide(self.t != 0)
+
+    def __eq__(self, o):
+        t = SRing._co(o)
+        return False if t is None else mkbool(self.t == t)
+
+    def __ne__(self, o):
+        t = SRing._co(o)
+        return True if t is None else mkbool(self.t != t)
+
+    def __lt__(self, o):
+        return mkbool(self.t < SRing._co(o))
+
+    def __gt__(self, o):
+        return mkbool(self.t > SRing._co(o))
+
+
 # ------------------------------------------------------------------ characters / strings
 class SChar(Sym):
     __slots__ = ('c',)
@@ -614,7 +644,7 @@ def merge(cond, a, b):
     if isinstance(a, SSign) and isinstance(b, SSign):
         return SSign(z3.If(cond, a.z, b.z), z3.If(cond, a.n, b.n))
     if isinstance(a, SRing) and isinstance(b, SRing):
-        return SRing(z3.If(cond, a.t, b.t))
+        return type(a)(z3.If(cond, a.t, b.t)) if type(a) is type(b) else SRing(z3.If(cond, a.t, b.t))
     if isinstance(a, SStr) and isinstance(b, SStr) and type(a) is type(b):
         return type(a)(z3.If(cond, a.t, b.t))
     if hasattr(a, 'kvc_merge') and type(a) is type(b):
